@@ -1,5 +1,219 @@
 package main
 
-import . "vh/vhlib"
+import (
+	"bytes"
+	"fmt"
+	"go/ast"
+	"go/printer"
+	"go/token"
+	"sort"
+	"strings"
 
-var gens = map[string]GenFn{}
+	. "vh/vhlib"
+)
+
+var gens = map[string]GenFn{
+	"RelaySrc": genRelaySrc,
+}
+
+func exprStr(fset *token.FileSet, e ast.Node) string {
+	var b bytes.Buffer
+	printer.Fprint(&b, fset, e)
+	return strings.Join(strings.Fields(b.String()), " ")
+}
+
+// genRelaySrc reads from the tree
+//   - streamproxy.go onUpstreamEvent / onDownstreamEvent: for each connection event, whether the proxy closes the
+//     OTHER connection with FlushWrite or NoFlush  -> up_reaction / down_reaction : cev -> option bool
+//   - connection.go doRead: under which guards the error block returns before onRead  -> doread_returns, and
+//     doread_eof_delivers (io.EOF and a time-out with bytes fall through to onRead; nothing else does)
+func genRelaySrc(repo string) (string, error) {
+	var out strings.Builder
+	out.WriteString("From Coq Require Import List String.\nFrom MV Require Import Model.Relay.\nImport ListNotations.\nOpen Scope string_scope.\n\n")
+
+	// ---- streamproxy reaction tables
+	fset, f, err := ParseGoFile(repo, "pkg/filter/network/streamproxy/streamproxy.go")
+	if err != nil {
+		return "", err
+	}
+	cevs := []string{"RemoteClose", "LocalClose", "OnReadErrClose", "OnWriteTimeout"}
+	table := func(fn, target string) (map[string]string, error) {
+		fd := FindFunc(f, "proxy", fn)
+		if fd == nil {
+			return nil, fmt.Errorf("%s not found", fn)
+		}
+		res := map[string]string{}
+		var sw *ast.SwitchStmt
+		ast.Inspect(fd.Body, func(n ast.Node) bool {
+			if s, ok := n.(*ast.SwitchStmt); ok && sw == nil && exprStr(fset, s.Tag) == "event" {
+				sw = s
+			}
+			return true
+		})
+		if sw == nil {
+			return nil, fmt.Errorf("%s: no switch on event", fn)
+		}
+		for _, st := range sw.Body.List {
+			cc := st.(*ast.CaseClause)
+			mode := ""
+			for _, bs := range cc.Body {
+				ast.Inspect(bs, func(n ast.Node) bool {
+					call, ok := n.(*ast.CallExpr)
+					if !ok {
+						return true
+					}
+					s := exprStr(fset, call.Fun)
+					if s == target+".Close" && len(call.Args) == 2 {
+						switch exprStr(fset, call.Args[0]) {
+						case "api.FlushWrite":
+							mode = "Some true"
+						case "api.NoFlush":
+							mode = "Some false"
+						default:
+							mode = "?"
+						}
+					}
+					return true
+				})
+			}
+			for _, e := range cc.List {
+				name := strings.TrimPrefix(exprStr(fset, e), "api.")
+				if mode != "" {
+					res[name] = mode
+				}
+			}
+		}
+		return res, nil
+	}
+	up, err := table("onUpstreamEvent", "p.readCallbacks.Connection()")
+	if err != nil {
+		return "", err
+	}
+	down, err := table("onDownstreamEvent", "p.upstreamConnection")
+	if err != nil {
+		return "", err
+	}
+	emit := func(name string, m map[string]string) error {
+		fmt.Fprintf(&out, "Definition %s (ev : cev) : option bool :=\n  match ev with\n", name)
+		for _, c := range cevs {
+			v, ok := m[c]
+			if !ok {
+				v = "None"
+			}
+			if v == "?" {
+				return fmt.Errorf("%s: unrecognised close type for %s", name, c)
+			}
+			fmt.Fprintf(&out, "  | %s => %s\n", c, v)
+		}
+		out.WriteString("  end.\n")
+		return nil
+	}
+	if err := emit("up_reaction", up); err != nil {
+		return "", err
+	}
+	if err := emit("down_reaction", down); err != nil {
+		return "", err
+	}
+	// OnData / onUpstreamData: Write(buffer.Clone()) on the other connection followed by a full drain
+	for _, chk := range []struct{ fn, want string }{
+		{"OnData", "p.upstreamConnection.Write(buffer.Clone())"},
+		{"onUpstreamData", "p.readCallbacks.Connection().Write(buffer.Clone())"},
+	} {
+		fd := FindFunc(f, "proxy", chk.fn)
+		if fd == nil {
+			return "", fmt.Errorf("%s not found", chk.fn)
+		}
+		body := exprStr(fset, fd.Body)
+		i := strings.Index(body, chk.want)
+		j := strings.Index(body, "buffer.Drain(buffer.Len())")
+		if i < 0 || j < i {
+			return "", fmt.Errorf("%s: expected %s followed by buffer.Drain(buffer.Len())", chk.fn, chk.want)
+		}
+	}
+
+	// ---- doRead error block
+	fset2, f2, err := ParseGoFile(repo, "pkg/network/connection.go")
+	if err != nil {
+		return "", err
+	}
+	dr := FindFunc(f2, "connection", "doRead")
+	if dr == nil {
+		return "", fmt.Errorf("doRead not found")
+	}
+	var errBlock *ast.IfStmt
+	errIdx := -1
+	onReadAfter := false
+	for i, st := range dr.Body.List {
+		if is, ok := st.(*ast.IfStmt); ok && errBlock == nil && exprStr(fset2, is.Cond) == "err != nil" {
+			errBlock, errIdx = is, i
+		}
+		if es, ok := st.(*ast.ExprStmt); ok && errIdx >= 0 && i > errIdx && exprStr(fset2, es.X) == "c.onRead(bytesRead)" {
+			onReadAfter = true
+		}
+	}
+	if errBlock == nil {
+		return "", fmt.Errorf("doRead: `if err != nil` block not found")
+	}
+	// collect every return with the chain of guards leading to it
+	var rets []string
+	var walk func(stmts []ast.Stmt, guards []string)
+	walkIf := func(is *ast.IfStmt, guards []string) {}
+	walkIf = func(is *ast.IfStmt, guards []string) {
+		g := exprStr(fset2, is.Cond)
+		if is.Init != nil {
+			g = exprStr(fset2, is.Init) + "; " + g
+		}
+		walk(is.Body.List, append(append([]string{}, guards...), g))
+		switch e := is.Else.(type) {
+		case *ast.IfStmt:
+			walkIf(e, append(append([]string{}, guards...), "!("+g+")"))
+		case *ast.BlockStmt:
+			walk(e.List, append(append([]string{}, guards...), "!("+g+")"))
+		}
+	}
+	walk = func(stmts []ast.Stmt, guards []string) {
+		for _, st := range stmts {
+			switch s := st.(type) {
+			case *ast.ReturnStmt:
+				rets = append(rets, strings.Join(guards, " && ")+" => "+exprStr(fset2, s))
+			case *ast.IfStmt:
+				walkIf(s, guards)
+			case *ast.BlockStmt:
+				walk(s.List, guards)
+			case *ast.ForStmt, *ast.RangeStmt, *ast.SwitchStmt, *ast.SelectStmt:
+				ast.Inspect(s, func(n ast.Node) bool {
+					if r, ok := n.(*ast.ReturnStmt); ok {
+						rets = append(rets, strings.Join(guards, " && ")+" && <loop/switch> => "+exprStr(fset2, r))
+					}
+					return true
+				})
+			}
+		}
+	}
+	walk(errBlock.Body.List, nil)
+	sort.Strings(rets)
+	want := []string{
+		"atomic.LoadUint32(&c.closed) == 1 => return err",
+		"te, ok := err.(net.Error); ok && te.Timeout() && bytesRead == 0 => return err",
+		"!(te, ok := err.(net.Error); ok && te.Timeout()) && err != io.EOF => return err",
+	}
+	sort.Strings(want)
+	same := len(rets) == len(want)
+	for i := range want {
+		if same && rets[i] != want[i] {
+			same = false
+		}
+	}
+	out.WriteString("\n(* returns inside doRead's `if err != nil` block, each with the guards leading to it *)\nDefinition doread_returns : list string := [\n")
+	for i, r := range rets {
+		sep := ";"
+		if i == len(rets)-1 {
+			sep = ""
+		}
+		fmt.Fprintf(&out, "  %s%s\n", CoqString(r), sep)
+	}
+	out.WriteString("].\n")
+	fmt.Fprintf(&out, "(* only a closed connection, a time-out without bytes and an error other than io.EOF / time-out return before onRead;\n   onRead(bytesRead) follows the block *)\nDefinition doread_eof_delivers : bool := %s.\n", CoqBool(same && onReadAfter))
+	out.WriteString("Definition RelaySrc_translator_ok := true.\n")
+	return out.String(), nil
+}
